@@ -28,9 +28,11 @@ Whole(w) == [n |-> w.n, secs |-> w.secs, frac |-> IF w.frac >= NSu THEN NSu ELSE
 \* year-length rule: two digits 00-49 -> 20xx, 50-99 -> 19xx; three digits -> +1900; four or more digits as written
 RECURSIVE DigitsValue(_, _)
 DigitsValue(ds, k) == IF k = 0 THEN 0 ELSE DigitsValue(ds, k - 1) * 10 + ds[k]
-YearOf(ds) == LET v == DigitsValue(ds, Len(ds)) IN
-   CASE Len(ds) = 2 -> (IF v <= 49 THEN 2000 + v ELSE 1900 + v)
-     [] Len(ds) = 3 -> 1900 + v
+\* more than six digits are a year only if the surplus digits in front are zeros (the value is what counts; six digits hold every year)
+LongOK(ds) == Len(ds) <= 6 \/ \A i \in 1..(Len(ds) - 6) : ds[i] = 0
+YearOf(ds) == LET k == Len(ds)  v == IF k > 6 THEN DigitsValue(SubSeq(ds, k - 5, k), 6) ELSE DigitsValue(ds, k) IN
+   CASE k = 2 -> (IF v <= 49 THEN 2000 + v ELSE 1900 + v)
+     [] k = 3 -> 1900 + v
      [] OTHER -> v
 \* zones: numeric (+|-)HHMM, the names of RFC 2822 section 4.3, single military letters (all read as +0000)
 NoZone == 1000000
@@ -63,19 +65,22 @@ NameCase(s, k) == CASE k = "asis" -> s [] k = "upper" -> UpperStr(s) [] k = "low
 \* f = [wd, d, mo, yt, h, mi, s, zone]   wd: the stated weekday (0 = Monday), yt: the year's digits, zone: the zone text
 \* c = [wkd, dpad, secs, ncase, ws, cm]  weekday present, day padded to two digits, seconds present, case of the names,
 \*                                       ws: the five white-space runs, cm: the trailing comments (may be empty)
+\* optional white space around the first colon and before the second one of the time of day (absent from older traces: empty)
+Tws(c, k) == IF "tws" \in DOMAIN c THEN c.tws[k] ELSE <<>>
+TwsOk(c) == "tws" \in DOMAIN c => (Len(c.tws) = 3 /\ \A k \in 1..3 : \A i \in 1..Len(c.tws[k]) : c.tws[k][i] \in {32, 9})
 Gen(f, c) ==
    (IF c.wkd THEN NameCase(ShortDays[f.wd + 1], c.ncase) \o <<44>> \o c.ws[1] ELSE <<>>)
    \o (IF c.dpad THEN Two(f.d) ELSE DecNat(f.d)) \o c.ws[2] \o NameCase(ShortMonths[f.mo], c.ncase) \o c.ws[3]
    \o [i \in 1..Len(f.yt) |-> 48 + f.yt[i]] \o c.ws[4]
-   \o Two(f.h) \o <<58>> \o Two(f.mi) \o (IF c.secs THEN <<58>> \o Two(f.s) ELSE <<>>) \o c.ws[5] \o f.zone \o c.cm
+   \o Two(f.h) \o Tws(c, 1) \o <<58>> \o Tws(c, 2) \o Two(f.mi) \o (IF c.secs THEN Tws(c, 3) \o <<58>> \o Two(f.s) ELSE <<>>) \o c.ws[5] \o f.zone \o c.cm
 Valid(f, c) ==
-   /\ Len(f.yt) >= 2 /\ Len(f.yt) <= 6 /\ \A i \in 1..Len(f.yt) : f.yt[i] \in 0..9
+   /\ Len(f.yt) >= 2 /\ Len(f.yt) <= 40 /\ LongOK(f.yt) /\ \A i \in 1..Len(f.yt) : f.yt[i] \in 0..9
    /\ ValidYmd(YearOf(f.yt), f.mo, f.d)
    /\ f.h \in 0..23 /\ f.mi \in 0..59 /\ f.s \in 0..60 /\ (~c.secs => f.s = 0)
    /\ ZoneOffset(f.zone) # NoZone
    /\ f.wd \in 0..6 /\ c.wkd \in BOOLEAN /\ c.dpad \in BOOLEAN /\ c.secs \in BOOLEAN /\ c.ncase \in {"asis", "upper", "lower"}
    /\ Len(c.ws) = 5 /\ \A k \in 1..5 : WsOk(c.ws[k])
-   /\ CommentsOk(c.cm)
+   /\ CommentsOk(c.cm) /\ TwsOk(c)
 Denoted(f, c) == [n |-> DayNumber(YearOf(f.yt), f.mo, f.d), secs |-> f.h * 3600 + f.mi * 60 + Min2(f.s, 59),
                   frac |-> IF f.s = 60 THEN NSu ELSE 0, off |-> ZoneOffset(f.zone)]
 \* a stated weekday must be the weekday of the date
@@ -102,9 +107,9 @@ Read(s) ==
    ELSE LET day == ScanNat(s, p0, 2) IN
    IF ~day.ok THEN Fail
    ELSE LET p1 == SkipWhite(s, day.next)   mo == NameIndex(Sub(s, p1, p1 + 2), ShortMonths)   p2 == SkipWhite(s, p1 + 3)   ye == DigitsEnd(s, p2) IN
-   IF p1 = day.next \/ mo = 0 \/ p2 = p1 + 3 \/ ye - p2 < 2 \/ ye - p2 > 6 THEN Fail
+   IF p1 = day.next \/ mo = 0 \/ p2 = p1 + 3 \/ ye - p2 < 2 THEN Fail
    ELSE LET yt == [i \in 1..(ye - p2) |-> s[p2 + i - 1] - 48]   p3 == SkipWhite(s, ye) IN
-   IF p3 = ye \/ ~AllDigits(s, p3, 2) \/ At(s, p3 + 2) # 58 \/ ~AllDigits(s, p3 + 3, 2) THEN Fail
+   IF ~LongOK(yt) \/ p3 = ye \/ ~AllDigits(s, p3, 2) \/ At(s, p3 + 2) # 58 \/ ~AllDigits(s, p3 + 3, 2) THEN Fail
    ELSE LET hasS == At(s, p3 + 5) = 58 /\ AllDigits(s, p3 + 6, 2)
             te == IF hasS THEN p3 + 8 ELSE p3 + 5
             p4 == SkipWhite(s, te)
